@@ -63,7 +63,10 @@ def xmrDecode (s : List Char) : R Bytes := do
   let blocks := chunksOf 11 s
   let decs ← blocks.mapM fun blk => do
     let d ← b58Decode btcAlphabet blk
-    pure (xmrUnPad d (if blk.length = 11 then 8 else lastDec))
+    let k := if blk.length = 11 then 8 else lastDec
+    -- repaired behaviour: a block whose value does not fit `k` bytes is refused (no truncation)
+    if (d.dropWhile (· == 0)).length > k then throw .value
+    pure (xmrUnPad d k)
   pure decs.flatten
 
 end BipVerif.Model
